@@ -1,0 +1,22 @@
+//go:build verif
+
+package meta
+
+import (
+	"github.com/hashicorp/raft"
+	"github.com/openGemini/openGemini/lib/util/lifted/influx/meta"
+)
+
+// VerifFSM returns the store as the raft state machine hashicorp/raft drives (Apply, Snapshot,
+// Restore). It exists only in builds with the "verif" tag: the verification harness feeds a
+// command log to the real state machine without starting a raft node.
+func (s *Store) VerifFSM() raft.FSM {
+	return (*storeFSM)(s)
+}
+
+// VerifData returns the catalogue the state machine currently holds.
+func (s *Store) VerifData() *meta.Data {
+	s.mu.RLock()
+	defer s.mu.RUnlock()
+	return s.data
+}
